@@ -1,7 +1,12 @@
 CONSTANTS
-  FixAsyncCb = TRUE
-  FixCbOutsideLock = TRUE
-  FixKickoff = TRUE
+  FixAsyncCb = FALSE
+  FixCbRpc = FALSE
+  FixCbEl = FALSE
+  FixKickoff = FALSE
+  FixDispatch = FALSE
+  FixPolicy = FALSE
+  FixResend = FALSE
+  FixRecover = FALSE
   Mode = "fine"
   Tier = "quick"
   Part = 0
@@ -10,7 +15,6 @@ INIT Init
 NEXT Next
 INVARIANT InvBounded
 INVARIANT Collect
-INVARIANT InvNoDeadlock
 VIEW View
 POSTCONDITION Post
 CHECK_DEADLOCK FALSE
